@@ -94,10 +94,26 @@ Theorem untouched_keep_inode : forall (H : bytes -> bytes) (hdr : stat -> bytes)
     alookup p (ds_map r) = alookup p (dest_of A) /\ ~ In p (ds_reqs r).
 Proof.
   intros H hdr d A B HwA HwB Hl Hf. cbv zeta.
-  destruct (receive_fresh_proof H hdr d A B HwA HwB Hl Hf) as (He & Hc & _ & Hk).
+  destruct (receive_fresh_proof H hdr d A B HwA HwB Hl Hf) as (He & Hc & _ & Hk & _).
   split; auto. split; auto. intros p Hu. split; auto.
   rewrite (reqs_exact_proof H hdr d A B HwA HwB Hl Hf).
   apply reqs_spec_unchanged; [apply HwA|apply HwB|exact Hu].
+Qed.
+
+(* Conversely every source entry that is new, or whose identity differs (other than a directory
+   over a directory, which is re-stamped in place, and other than a hard link, which takes the
+   inode of the entry it names), is rewritten: the destination ends up with the stat as sent
+   under an inode class that did not exist before (all old classes are < |A|). *)
+Theorem rewritten_get_new_inode : forall (H : bytes -> bytes) (hdr : stat -> bytes) d A B,
+  wf_listing (map fst A) -> wf_listing (map fst B) -> links_ok B -> identity_faithful d A B ->
+  let r := receive_abs H hdr Fresh d A B in
+  (forall p e, alookup p (dest_of A) = Some e -> de_ino e < N.of_nat (length A)) /\
+  forall p, fresh_target d A B p ->
+    exists e b, alookup p (ds_map r) = Some e /\ In b (map fst B) /\ st_path b = p /\
+                de_stat e = b /\ N.of_nat (length A) <= de_ino e.
+Proof.
+  intros H hdr d A B HwA HwB Hl Hf. cbv zeta. split; [apply dest_of_ino_bound|].
+  destruct (receive_fresh_proof H hdr d A B HwA HwB Hl Hf) as (_ & _ & _ & _ & Hfr). exact Hfr.
 Qed.
 
 (* Re-sync of an unchanged source (entry by entry the same path and identity key): zero
@@ -141,6 +157,7 @@ Print Assumptions resync_noop.
 Print Assumptions diff_none_all.
 Print Assumptions reqs_exact.
 Print Assumptions untouched_keep_inode.
+Print Assumptions rewritten_get_new_inode.
 Print Assumptions receive_resync_noop.
 Print Assumptions diff_none_requests_all.
 
@@ -221,5 +238,7 @@ Example example_transfer :
   /\ alookup p_a_b (ds_map r) = alookup p_a_b (dest_of exA)          (* same inode class 3 *)
   /\ alookup p_ax (ds_map r) = None /\ alookup p_byz (ds_map r) = None
   /\ option_map de_bytes (alookup [100] (ds_map r)) = Some [6;6;6]
-  /\ option_map de_ino (alookup [100] (ds_map r)) = option_map de_ino (alookup pc (ds_map r)).
+  /\ option_map de_ino (alookup [100] (ds_map r)) = option_map de_ino (alookup pc (ds_map r))
+  /\ option_map de_ino (alookup pc (dest_of exA)) = Some 7       (* c: old class 7, new class 9 *)
+  /\ option_map de_ino (alookup pc (ds_map r)) = Some 9.
 Proof. vm_compute. repeat split; reflexivity. Qed.
